@@ -20,7 +20,9 @@ ASSUMPTIONS = ["Layer P models CPython's operators (pysem)",
 NASTY = [0, 0.0, -0.0, None, "", [], {}, "%z", "100%", "%(k)s", "%d", "abc", " 3 ", "1_0", "true", "TRUE", "2.5", "é",
          2 ** 63 - 1, -1, 1e-8, [None], {None: None}, {"a": {}}, [[]], True, False, "%", "%c", "%s %s",
          # strings that a more lenient conversion than int() / the bool table might read (and choke on)
-         "inf", "-inf", "Infinity", "nan", "1e999", "-1e400", "3.0", " +infinity ", "0x10", "١٢"]
+         "inf", "-inf", "Infinity", "nan", "1e999", "-1e400", "3.0", " +infinity ", "0x10"]
+# (no non-ASCII digits: int("١٢") == 12 in CPython, and the model's int(str) is stated for ASCII text only - a thorough run
+#  reported that difference as a violation of C07, a false alarm of the harness)
 
 
 def nasty_doc(g, depth=3):
